@@ -113,3 +113,60 @@ def directed_asts(res, mode, limit=150):
         if len(out) >= limit:
             break
     return out
+
+
+def toplevel_separators(p):
+    """Positions of the unescaped `/` of a path pattern that lie outside brackets and extended groups."""
+    out = []
+    depth = 0
+    i = 0
+    n = len(p)
+    while i < n:
+        c = p[i]
+        if c == '\\':
+            i += 2
+            continue
+        if c == '[':
+            # a bracket expression closes at the first `]` after its first member; a `/` inside aborts it (path mode)
+            j = i + 1
+            if j < n and p[j] in '!^':
+                j += 1
+            if j < n and p[j] == ']':
+                j += 1
+            k = j
+            while k < n and p[k] != ']' and p[k] != '/':
+                k += 2 if p[k] == '\\' else 1
+            if k < n and p[k] == ']':
+                i = k + 1
+                continue
+        elif c == '(':
+            depth += 1
+        elif c == ')' and depth:
+            depth -= 1
+        elif c == '/' and depth == 0:
+            out.append(i)
+        i += 1
+    return out
+
+
+SEP_SPELLINGS = ['//', '///', '\\/', '/\\/', '\\//', '\\/\\/', '//\\/']
+
+
+def separator_respellings(p, rng, k=3):
+    """Up to k respellings of p in which runs of separators - plain or escaped - replace single separators (the
+    documentation: a run counts as one), plus one with a final backslash that escapes nothing (ignored)."""
+    pos = toplevel_separators(p)
+    out = []
+    for _ in range(k if pos else 0):
+        q = list(p)
+        for i in pos:
+            if rng.random() < 0.6:
+                # a leading separator stays unescaped: it is what makes the pattern rooted
+                q[i] = rng.choice(['//', '///']) if i == 0 else rng.choice(SEP_SPELLINGS)
+        q = ''.join(q)
+        if q != p:
+            out.append(q)
+    nb = len(p) - len(p.rstrip('\\'))
+    if p and nb % 2 == 0:
+        out.append(p + '\\')
+    return sorted(set(out))
